@@ -87,6 +87,17 @@ CHECKS = {
          "Partial: template-literal patterns (regex semantics), intersections and tuples (both have known findings) and the link "
          "'members of a dispatch node = flattened union' are outside the theorem and covered by the search; object types are read as "
          "'non-null objects' (beff's reading), ${number} as TypeScript's in the reference and as the emitted pattern in rmember."),
+ "C05": ("Theorems about the top level of the decision (Model/Subtype.v = SemTypeOps::is_empty/is_subtype/is_same_type, with list and mapping "
+         "emptiness as a parameter): is_same_type answers true exactly when both assignability decisions do "
+         "(C05_same_type_is_mutual_assignability, C05_same_type_answer); is_subtype is emptiness of the difference, and difference / "
+         "union / intersection of the decision diagrams are the Boolean operations for every valuation of the atoms (Props/C06.v). Partial: "
+         "the emptiness procedures for lists and mappings (Frisch's Phi', check_mapping_empty, the memoised co-inductive cut) are not "
+         "modelled; the property is decided on the implementation by comparing every decision, on generated pairs converted in both orders "
+         "and queried in two orders, with a bounded enumeration of the exact values of the left type. Three genuine defects found this "
+         "way were repaired in /repo (fix: a6cefb8, 16f31f9, 3a0fd83).",
+         "Bounded enumeration (depth 4, capped breadth, universe = literals of both types + one fresh string/number/key): a missing "
+         "separating value is only reported when the enumeration was exhaustive; decisions involving intersections of object types are a "
+         "listed finding (the exact/open reading of atoms is not a Boolean algebra)."),
  "C14": ("Theorem C14_every_rebuild_answers_like_a_fresh_process: for every parse and extract (the compiler proper is a parameter), "
          "every initial disk and every finite history of updates and rebuilds, each rebuild of the session model (thread-local cache, "
          "get_or_fetch_file, update_file_content_inner) returns what a fresh process returns for the disk at that moment — by the "
